@@ -355,8 +355,13 @@ PROPS = {
         level_text='Lean 4 theorems over the model (coherence of all accepted combinations, by case analysis over the attribute record and induction over field lists) + exhaustive L1 on the 3136-combination matrix + model-free law checks on compiled programs',
     ),
     'C03': dict(
-        explanation='theorems: the where-clause every builder threads through its WhereClauseBuilder equals the documented walk; with no bound(..) anywhere it is the declared predicates plus exactly the used field types that mention a parameter (absent_contrib, default_fields_exact). L1 compares every where-clause token for token; the well-typed grammar of C20 has rustc confirm that the generated impls type-check.',
-        theorems=[(CMP + 'C04', ['DX.absent_contrib', 'DX.default_fields_exact', 'DX.clone_struct_default_where',
+        explanation='theorems: the where-clause every builder threads through its WhereClauseBuilder equals the documented walk; with no bound(..) anywhere it is the declared predicates plus exactly the used field types that mention a parameter (plan_default_exact, spelled out for every builder in Props/C03.lean: all fields for Clone / Copy / operators, shown or transparent fields for Debug, fields without explicit value of the default variant for Default, compared fields not using key / by for the comparison traits, none for Deref). L1 compares every where-clause token for token; the well-typed grammar of C20 has rustc confirm that the generated impls type-check.',
+        theorems=[(CMP + 'C03', ['DX.plan_default_exact', 'DX.no_bound_without_use', 'DX.bound_for_every_use',
+                                 'DX.clone_struct_default', 'DX.copy_struct_default', 'DX.clone_enum_default', 'DX.copy_enum_default',
+                                 'DX.ops_default', 'DX.default_struct_default', 'DX.default_struct_value_default',
+                                 'DX.default_enum_default', 'DX.debug_struct_default', 'DX.debug_enum_default',
+                                 'DX.cmp_struct_default', 'DX.cmp_enum_default', 'DX.deref_default', 'DX.paramSet_expandSelf']),
+                  (CMP + 'C04', ['DX.absent_contrib', 'DX.default_fields_exact', 'DX.clone_struct_default_where',
                                  'DX.clone_struct_where', 'DX.clone_enum_where', 'DX.copy_enum_where', 'DX.copy_struct_where',
                                  'DX.ops_where', 'DX.default_struct_where', 'DX.default_struct_where_value', 'DX.debug_struct_where', 'DX.selBounds_walk', 'DX.cmp_struct_where', 'DX.cmp_enum_where', ]),
                   (CMP + 'C04Enum', ['DX.debug_enum_where', 'DX.default_enum_where', 'DX.default_enum_where_value', 'DX.deref_where']),
